@@ -38,13 +38,13 @@ Definition smax (n : N) : Z := pow2 (n - 1) - 1.
 
 Definition doc_ok (src tgt : cty) : bool :=
   match src, tgt with
-  | (CNull | CFull), (CBit | CBV _ | CU _ | CS _) => true
+  | (CNull | CFull), _ => true
   | CIntLit z, (CBit | CBool) => (z =? 0) || (z =? 1)
   | CIntLit z, CInteger => (int_min <=? z) && (z <=? int_max)
   | CIntLit z, CU m => (0 <=? z) && (z <? pow2 m)
   | CIntLit z, CS m => (smin m <=? z) && (z <=? smax m)
   | CStrLit l _, (CBV m | CU m | CS m) => (l =? m)%N
-  | CStrLit l _, CBit => (l =? 1)%N
+  | CStrLit l _, (CBit | CBool) => (l =? 1)%N
   | (CBit | CBool), (CBit | CBool) => true
   | CInteger, CInteger => true
   | CU n, CU m => (n <=? m)%N
@@ -80,6 +80,7 @@ Definition conv_val (src tgt : cty) (v : Z) : Z :=
   match src, tgt with
   | CNull, _ => 0
   | CFull, (CBV m | CU m | CS m) => ones m
+  | CFull, CInteger => -1
   | CFull, _ => 1
   | CIntLit z, CS m => wrap m z
   | CIntLit z, _ => z
@@ -342,21 +343,27 @@ Definition root_kind (f : form) (tgt : cty) : cty :=
 (** statement forms: the trial assignment of the setter replacement, then format_cast in the backend *)
 Definition stmt_ok (vt src tgt : cty) : bool := trial src tgt && emits vt tgt src.
 
-(** an expression whose value is one of two options, assigned to [tgt] *)
+(** an expression whose value is one of two options, assigned to [tgt]: every option is redirected into the merge
+    temporary (or, without a join, into the target) after a constructor check (_Redirect) *)
+Definition redirect_ok (src tgt : cty) : bool := ctor src tgt && emits tgt tgt src.
+
 Definition merge_ok (a b tgt : cty) : bool :=
   match join a b with
-  | Some r => stmt_ok r a r && stmt_ok r b r && stmt_ok tgt r tgt
-  | None => ctor a tgt && ctor b tgt && stmt_ok tgt a tgt && stmt_ok tgt b tgt
+  | Some r => redirect_ok a r && redirect_ok b r && stmt_ok tgt r tgt
+  | None => redirect_ok a tgt && redirect_ok b tgt
   end.
+
+(** a declaration inside a context: no trial assignment, a run-time initial value is only seen by format_cast *)
+Definition decl_ok (src tgt : cty) : bool := if is_runtime src then emits tgt tgt src else ctor src tgt.
 
 Definition assign_ok (f : form) (src tgt : cty) : bool :=
   match f with
   | FNextOp | FNextAttr | FValueOp | FValueAttr | FPushOp | FPushAttr => stmt_ok tgt src tgt
   | FSlice k => match vec_of tgt with Some _ => stmt_ok (retag k tgt) src tgt | None => false end
   | FElem _ => match tgt with CBit => stmt_ok tgt src tgt | _ => false end
-  | FDeclSig | FDeclVar => stmt_ok tgt src tgt
+  | FDeclSig | FDeclVar => decl_ok src tgt
   | FDeclStatic => ctor src tgt
-  | FPortIn => trial src tgt
+  | FPortIn => is_runtime src && trial src tgt     (* a literal actual crashes (AttributeError) *)
   | FPortOut => trial tgt src
   | FIfA | FRetA => merge_ok src tgt tgt
   | FIfB | FRetB => merge_ok tgt src tgt
